@@ -1176,6 +1176,12 @@ var moneyBinder = func() binding.Binder {
 	return binding.NewDefaultBinder(bc)
 }()
 
+type bnKeyDeep struct {
+	Name string                   `json:"name"`
+	L    []map[bnKey]string       `json:"-"`
+	M    map[string]map[bnKey]int `json:"-"`
+}
+
 type bnInnerUnexported struct {
 	Name string `json:"name"`
 	In   struct {
@@ -1237,6 +1243,8 @@ func TestC20BinderNested(t *testing.T) {
 		{"linked list *T, link first, 4 nodes (deep)", func(n int) interface{} { return &bnListLinkFirst{} }, func(n int) string { return nestList(4, n) }},
 		{"embedded named slice of structs", func(n int) interface{} { return &bnEmbedSlice{} }, func(n int) string { return fmt.Sprintf(`{"a":1,"BnItems":[{"n":%d}]}`, n) }},
 		{"type with a customized decoder (query m)", func(n int) interface{} { return &bnPrice{} }, func(n int) string { return `{}` }},
+		{"struct as the key of a map inside a slice", func(n int) interface{} { return &bnKeyDeep{L: []map[bnKey]string{{{N: n}: "v"}}} }, func(n int) string { return `{"name":"x"}` }},
+		{"struct as the key of a map inside a map", func(n int) interface{} { return &bnKeyDeep{M: map[string]map[bnKey]int{"a": {{N: n}: 1}}} }, func(n int) string { return `{"name":"x"}` }},
 		{"embedded non-struct type", func(n int) interface{} { return &bnEmbedInt{} }, func(n int) string { return fmt.Sprintf(`{"n":%d}`, n) }},
 		{"unexported field with a rule", func(n int) interface{} { return &bnUnexported{} }, func(n int) string { return fmt.Sprintf(`{"n":%d}`, n) }},
 		{"unexported field with a rule, in a nested struct", func(n int) interface{} { return &bnInnerUnexported{} }, func(n int) string { return fmt.Sprintf(`{"name":"x","in":{"n":%d}}`, n) }},
